@@ -1,5 +1,6 @@
 import GluonModel.Sexp
 import GluonModel.Memo
+import GluonModel.MemoPath
 open GluonModel GluonModel.Memo
 
 /-
@@ -7,9 +8,10 @@ Requests:  (hist <step>*)   with <step> =
    (set  m int|str c (d u)*)     add_module only
    (get  m)                      run_expr "import! m"
    (load m int|str c (d u)*)     load_script = add_module + import
-Answer: one item per step:  -   |  (ok int v (ran*)) | (ok str c (ran*)) | (err cls (ran*))
-        for load: (ok (ran*)) | (err cls (ran*))
-where ran* are the modules whose body was run by this step, in order.
+Answer: one item per step:  -   |  (ok int v (ran*)) | (ok str c (ran*)) | (err cls (ran*) (path*))
+        for load: (ok (ran*)) | (err cls (ran*) (path*))
+where ran* are the modules whose body was run by this step, in order, and path* the distinct printed
+cycle paths `(x … x)` of the error message, sorted.
 -/
 
 def parseDeps : List Sexp → Option (List (Mod × Bool))
@@ -35,35 +37,53 @@ def showCls : Cls → String
 
 def showLog (l : List Mod) : String := "(" ++ " ".intercalate (l.map toString) ++ ")"
 
-def showRes (full : Bool) (r : Res) (ran : List Mod) : String :=
+def pathLt : List Nat → List Nat → Bool
+  | [], [] => false
+  | [], _ :: _ => true
+  | _ :: _, [] => false
+  | a :: as, b :: bs => a < b || (a == b && pathLt as bs)
+
+def insertPath (p : Path) : List Path → List Path
+  | [] => [p]
+  | q :: qs => if pathLt p q then p :: q :: qs else q :: insertPath p qs
+
+def sortPaths (ps : List Path) : List Path := ps.foldl (fun acc p => insertPath p acc) []
+
+def showPaths (ps : List Path) : String :=
+  "(" ++ " ".intercalate ((sortPaths ps).map showLog) ++ ")"
+
+def showRes (full : Bool) (r : Res) (ran : List Mod) (ps : List Path) : String :=
   match r with
   | .ok .int v => if full then s!"(ok int {v} {showLog ran})" else s!"(ok {showLog ran})"
   | .ok .str v => if full then s!"(ok str {v} {showLog ran})" else s!"(ok {showLog ran})"
-  | .err c => s!"(err {showCls c} {showLog ran})"
+  | .err c => s!"(err {showCls c} {showLog ran} {showPaths ps})"
 
-def doGet (full : Bool) (st : St) (m : Mod) : String × St :=
+def doGet (full : Bool) (st : St) (pc : PCache) (m : Mod) : String × St × PCache :=
   let before := st.cache.log.length
   let r := getM st m
-  (showRes full r.1 (r.2.cache.log.drop before), r.2)
+  let p := getP st.srcs m pc
+  (showRes full r.1 (r.2.cache.log.drop before) p.1, r.2, p.2)
 
-def runSteps : List Sexp → St → List String → Option (List String)
-  | [], _, acc => some acc.reverse
-  | .list (.atom "set" :: rest) :: more, st, acc => do
+def runSteps : List Sexp → St → PCache → List String → Option (List String)
+  | [], _, _, acc => some acc.reverse
+  | .list (.atom "set" :: rest) :: more, st, pc, acc => do
     let (m, s) ← parseSrc rest
-    runSteps more (setSrc false st m s) ("-" :: acc)
-  | .list [.atom "get", m] :: more, st, acc => do
+    let st' := setSrc false st m s
+    runSteps more st' (setP st st' pc) ("-" :: acc)
+  | .list [.atom "get", m] :: more, st, pc, acc => do
     let m ← m.toNat?
-    let (a, st') := doGet true st m
-    runSteps more st' (a :: acc)
-  | .list (.atom "load" :: rest) :: more, st, acc => do
+    let (a, st', pc') := doGet true st pc m
+    runSteps more st' pc' (a :: acc)
+  | .list (.atom "load" :: rest) :: more, st, pc, acc => do
     let (m, s) ← parseSrc rest
-    let (a, st') := doGet false (setSrc false st m s) m
-    runSteps more st' (a :: acc)
-  | _, _, _ => none
+    let st1 := setSrc false st m s
+    let (a, st', pc') := doGet false st1 (setP st st1 pc) m
+    runSteps more st' pc' (a :: acc)
+  | _, _, _, _ => none
 
 def handle : List Sexp → String
   | .atom "hist" :: steps =>
-    match runSteps steps St.init [] with
+    match runSteps steps St.init PCache.init [] with
     | some xs => "(" ++ " ".intercalate xs ++ ")"
     | none => "bad-request"
   | _ => "bad-request"
